@@ -20,7 +20,7 @@ PID = 'C16'
 
 META = {
     'technique': 'can-fail summaries by fixpoint over the resolved call graph + result-use analysis on the event-CFG, NULL-dominance dataflow for raw allocations and for destructor dereferences through constructor-allocated members, dominance of the destructor-slot store over the first failing operation',
-    'text': 'Decides, for every allocation/creation site reachable from handle creation, configuration and init (encoder and decoder), the local obligations that make the k-th failure reported and unwound: the error result is not dropped anywhere on the way up, raw allocations are tested, constructors arm their destructor first, destructors tolerate partially constructed objects. Each k of the property is one site of this enumeration, so all k are covered without injecting a fault.',
+    'text': 'Decides, for every allocation/creation site reachable from handle creation, configuration and init (encoder and decoder), the local obligations that make the k-th failure reported and unwound: the error result is not dropped anywhere on the way up, raw allocations are tested, constructors arm their destructor first, destructors tolerate partially constructed objects. Each k of the property is one site of this enumeration, so all k are covered without injecting a fault. Also decided: the unwinding never frees a cell that was not written - element allocations into an array that is not zero-filled either make the array zero-filled, or (when only cell [0] is ever released) store their NULL result before returning.',
     'note': 'operations on existing OS objects (mutex lock/unlock, semaphore post/wait) are outside "creation failure" and exempt from ERR; run-time (pipeline) discards are reported as informational only',
     'ref': 'DESIGN.md section 5 C16',
 }
